@@ -75,7 +75,7 @@ def _normal_equation_failures(op, coords, alphas, lam, matrix, M_impl, key, what
         M = np.eye(len(al)) if matrix == "I" else np.asarray(M_impl, dtype=float)
         res = (A.T @ A / m + lam * M) @ al - A.T @ yt / m
         scale = max(1.0, float(np.max(np.abs(A.T @ yt / m))), float(np.max(np.abs(al))))
-    if float(np.max(np.abs(res))) > 1e-9 * scale:
+    if not (float(np.max(np.abs(res))) <= 1e-9 * scale):
         fails.append(fail("normal_equations", "%s: residual of the normal equations %r (lambda %r, matrix %s)" % (what, float(np.max(np.abs(res))), lam, matrix), key))
     return fails
 
@@ -141,7 +141,7 @@ def _large_case(c):
         else:
             res = (A.T @ A / mm + c["lambda"] * np.eye(len(al))) @ al - A.T @ yt / mm
             scale = max(1.0, float(np.max(np.abs(A.T @ yt / mm))), float(np.max(np.abs(al))))
-        if float(np.max(np.abs(res))) > 1e-8 * scale:
+        if not (float(np.max(np.abs(res))) <= 1e-8 * scale):
             fails.append(fail("normal_equations", "level %r, %d training points: residual %r" % (lv, len(Xt), float(np.max(np.abs(res)))), key))
         n += 1
     return fails, n
@@ -164,6 +164,41 @@ def _retrain_case(c):
             fails += _normal_equation_failures(op, coords, op.surpluses[tuple(comp.levelvector)], c["lambda"], c["matrix"], M_impl, key,
                                                "training %r, level %r" % ((pct, lmin, lmax), lv))
             n += 1
+        if fails:
+            break
+    return fails, n
+
+
+def _two_models_case(c):
+    """TWO Regression objects live in one process (a parameter study): model 1 is trained, then model 2 is constructed and trained on
+    other targets / lambda / matrix over an overlapping level range; afterwards BOTH must satisfy the normal equations of their OWN
+    problem on every component grid, and the predictions of model 1 must be what they were before model 2 existed"""
+    key = {"training": "two_models", "matrix": c["models"][0]["matrix"], "regularised": c["models"][0]["lambda"] != 0}
+    fails, n = [], 0
+    lat = list(itertools.product([0.1, 0.33, 0.5, 0.8], repeat=c["d"]))
+    ops, combis, preds = [], [], []
+    for m in c["models"]:
+        cc = dict(c, **m)
+        op = _regression(cc)
+        combi = op.train_spatially_adaptive(0.2, 0.9, 1e-12, 12) if m.get("adaptive") else op.train(0.2, m["lmin"], m["lmax"])
+        ops.append(op)
+        combis.append(combi)
+        preds.append(np.asarray(combi(lat), dtype=float).ravel().copy())
+    for i, (m, op, combi) in enumerate(zip(c["models"], ops, combis)):
+        if m.get("adaptive"):
+            continue
+        for comp in combi.scheme:
+            lv = [int(x) for x in comp.levelvector]
+            coords = [[j / 2 ** l for j in range(2 ** l + 1)] for l in lv]
+            op.grid.numPoints = 2 ** np.array(lv) - 1
+            M_impl = op.build_C_matrix(lv) if m["matrix"] == "C" else None
+            fails += _normal_equation_failures(op, coords, op.surpluses[tuple(comp.levelvector)], m["lambda"], m["matrix"], M_impl, key,
+                                               "model %d of %d (after all were trained), level %r" % (i + 1, len(ops), lv))
+            n += 1
+        again = np.asarray(combi(lat), dtype=float).ravel()
+        if not np.allclose(again, preds[i], rtol=1e-12, atol=1e-13):
+            fails.append(fail("prediction_changed_by_other_model", "model %d: predictions %r right after its training, %r after the other model was trained"
+                              % (i + 1, preds[i][:3].tolist(), again[:3].tolist()), key))
         if fails:
             break
     return fails, n
@@ -273,7 +308,7 @@ def _cmatrix_tree_case(c):
 
 def run_case(case):
     c = case["config"]
-    fn = {"train": _train_case, "retrain": _retrain_case, "opticom": _opticom_case, "large": _large_case, "adaptive": _adaptive_case, "C_uniform": _cmatrix_uniform_case,
+    fn = {"train": _train_case, "retrain": _retrain_case, "opticom": _opticom_case, "two_models": _two_models_case, "large": _large_case, "adaptive": _adaptive_case, "C_uniform": _cmatrix_uniform_case,
           "C_tree": _cmatrix_tree_case}[c["kind"]]
     fails, n = fn(c)
     return {"failures": fails, "canon": core.config_key(c), "outcome": (n, len(fails)), "nontrivial": True, "evals": n}
@@ -314,6 +349,14 @@ def cases(tier):
             for option in (1, 2, 3):
                 out.append({"config": {"kind": "adaptive", "d": d, "targets": targets, "lambda": 0.0, "matrix": "C", "margin": 0.9,
                                        "max_evaluations": 20 if d == 2 else 8, "option": option}})
+    # two models alive in one process: every ordered pair from a menu of problems over overlapping level ranges
+    tn = list(TARGETS)
+    menu = [{"targets": tn[0], "lambda": 0.0, "matrix": "C", "lmin": 1, "lmax": 3}, {"targets": tn[-1], "lambda": 0.1, "matrix": "I", "lmin": 1, "lmax": 3},
+            {"targets": tn[0], "lambda": 0.1, "matrix": "C", "lmin": 2, "lmax": 3}, {"targets": tn[-1], "lambda": 1e-3, "matrix": "I", "lmin": 1, "lmax": 2},
+            {"targets": tn[-1], "lambda": 0.1, "matrix": "C", "lmin": 1, "lmax": 2, "adaptive": True}]
+    for d in (1, 2):
+        for m1, m2 in itertools.permutations(menu, 2):
+            out.append({"config": {"kind": "two_models", "d": d, "models": [m1, m2]}})
     for d, L in ((1, 4), (2, 3), (3, 2)):
         for lv in itertools.product(range(1, L + 1), repeat=d):
             out.append({"config": {"kind": "C_uniform", "level": list(lv)}})
